@@ -34,7 +34,7 @@ type Op struct {
 	K    string   `json:"k"`             // abstract command (LineEdit.tla vocabulary)
 	Via  string   `json:"via"`           // key: through the event handler; call: exported method
 	Key  string   `json:"key,omitempty"` // binding used, e.g. "Ctrl+a", "Home"
-	Gs   []string `json:"gs,omitempty"`  // graphemes inserted / pasted / assigned
+	Gs   []string `json:"gs,omitempty"`  // graphemes inserted / pasted / assigned; on a deletion: the two graphemes it brings together, which form one cluster
 	I    int      `json:"i,omitempty"`   // goto target
 	W    int      `json:"w,omitempty"`   // resize: new window width
 	Base string   `json:",omitempty"`    // insjoin, pastejoin: the cluster the first grapheme of Gs joins
@@ -310,6 +310,7 @@ func Run(c *Ctx, wk *Worker, sc *Scn) (evs []trace.Ev, note string) {
 	defer func() { reset["tab"] = loc.tab }()
 	win := sc.W
 	prevWin := sc.W
+	unsynced := false
 	for _, op := range sc.Ops {
 		op := op
 		chg, sub = [][]int{}, [][]int{}
@@ -321,6 +322,14 @@ func Run(c *Ctx, wk *Worker, sc *Scn) (evs []trace.Ev, note string) {
 		var evsIn []vaxis.Event
 		var call func()
 		joined := strings.Join(gs, "")
+		if (op.K == "bs" || op.K == "del" || op.K == "delword") && len(gs) != 0 {
+			// a deletion that brings gs[0] and gs[1] together: the oracle is told the
+			// cluster the two form (segmentation fact)
+			if len(gs) != 2 || len(segment(joined)) != 1 {
+				return evs, "bad join fact"
+			}
+			ev["gs"] = loc.ids([]string{gs[0], gs[1], joined})
+		}
 		switch {
 		case op.K == "resize":
 			win = op.W
@@ -365,6 +374,10 @@ func Run(c *Ctx, wk *Worker, sc *Scn) (evs []trace.Ev, note string) {
 				call = func() { tf.DeleteCharLeftOfCursor() }
 			case "killeol":
 				call = func() { tf.DeleteCursorToEndOfLine() }
+			case "setval":
+				// the application assigns the exported field (the way a TextField is
+				// given a starting content)
+				call = func() { tf.Value = joined }
 			}
 		case op.Via == "call" && ti != nil:
 			switch op.K {
@@ -429,6 +442,19 @@ func Run(c *Ctx, wk *Worker, sc *Scn) (evs []trace.Ev, note string) {
 			evs = append(evs, trace.Ev{"ev": "panic", "k": op.K, "msg": ascii(pan)})
 			return evs, "panic: " + pan
 		}
+		switch op.K {
+		case "setval":
+			unsynced = true
+		case "noop", "resize":
+		default:
+			unsynced = false
+		}
+		if unsynced {
+			// since the application assigned Value the widget was not given anything to
+			// do (at most a key it does not bind): its cursor index is judged from the
+			// next command on, the drawn cursor column at once
+			cur = -1
+		}
 		dw := win
 		if c.Hangs.Load() >= 4 {
 			dw = -1 // draws are switched off after repeated hangs
@@ -484,6 +510,38 @@ func pasteJoinOps(k int, more ...string) []Op {
 	return []Op{insOp(j[0]), {K: "pastejoin", Via: "key", Gs: append([]string{j[1]}, more...), Base: j[0]}}
 }
 
+// DelJoins: two graphemes that stay apart while something stands between them and
+// form one cluster when they become neighbours: two regional indicators, Hangul
+// leading consonant and vowel, Hangul syllable and trailing consonant, an emoji
+// followed by a zero width joiner and a second emoji.
+var DelJoins = [][2]string{{"🇩", "🇪"}, {"\u1100", "\u1161"}, {"\uac00", "\u11a8"}, {"👩\u200d", "💻"}}
+
+// delJoinOps types DelJoins[k] with one grapheme between the two and deletes
+// that grapheme: how = "bs" (from behind it), "del" (from before it), "delword"
+// (word deletion from behind it; textinput, pairs that are not letters).
+func delJoinOps(widget string, k int, how string, alt int) []Op {
+	j := DelJoins[k%len(DelJoins)]
+	sep := []string{"a", "世", "7", " "}[alt%4]
+	if how == "delword" {
+		sep = []string{"a", "7", "b"}[alt%3]
+	}
+	ops := []Op{insOp(j[0]), insOp(sep), insOp(j[1]), keyOp(widget, "left", alt)}
+	if how == "del" {
+		ops = append(ops, keyOp(widget, "left", alt+1))
+	}
+	d := keyOp(widget, how, alt)
+	d.Gs = []string{j[0], j[1]}
+	return append(ops, d)
+}
+
+// delJoinHows: the deletions of delJoinOps a widget offers for DelJoins[k].
+func delJoinHows(widget string, k int) []string {
+	if widget == "textinput" && classOf(DelJoins[k%len(DelJoins)][0]) != 1 {
+		return []string{"bs", "del", "delword"}
+	}
+	return []string{"bs", "del"}
+}
+
 // Ctls: control characters a paste may contain; on a legacy terminal the same
 // bytes are the keys Enter, Ctrl+a, Ctrl+k, Ctrl+e, BackSpace (2x), Ctrl+d,
 // Ctrl+u, Ctrl+w, Ctrl+b, Ctrl+f, which the widgets bind.
@@ -505,7 +563,7 @@ func BaseOps(widget string, alt int) []Op {
 	ks := []string{"left", "right", "home", "end", "bs", "del", "killeol"}
 	if widget == "textfield" {
 		ks = append(ks, "enter")
-		ops = append(ops, pasteCtlOp(alt, 1, "b", "👍🏽"))
+		ops = append(ops, pasteCtlOp(alt, 1, "b", "👍🏽"), Op{K: "setval", Via: "call", Gs: []string{"世"}})
 	} else {
 		ks = append(ks, "wordleft", "wordright", "killbol", "delword")
 		ops = append(ops, Op{K: "paste", Via: "key", Gs: []string{"b", "👍🏽"}})
@@ -539,13 +597,49 @@ func Starts(widget string) [][]Op {
 	}
 }
 
+// ValueStarts: starting contents of a TextField given the way an application
+// gives them, by assigning the exported Value: to a new field (cursor 0), and to
+// a field whose cursor is beyond the end of the new text.
+func ValueStarts() [][]Op {
+	return [][]Op{
+		{{K: "setval", Via: "call", Gs: []string{"a", "世", EAcute}}},
+		{{K: "ins", Via: "call", Gs: []string{"a", "b", "7", "-"}}, {K: "setval", Via: "call", Gs: []string{"世", "a"}}},
+	}
+}
+
+// assignedTwice: the history assigns Value twice with nothing between the two
+// that the widget acts on. Not generated: the widget cannot know of the first
+// assignment, and the statement does not say whether the cursor index it keeps
+// is the one from before the first assignment or that index kept within the
+// text assigned first.
+func assignedTwice(ops []Op) bool {
+	pending := false
+	for _, op := range ops {
+		switch op.K {
+		case "setval":
+			if pending {
+				return true
+			}
+			pending = true
+		case "noop", "resize":
+		default:
+			pending = false
+		}
+	}
+	return false
+}
+
 var widths = []int{40, 40, 12, 9, 7, 6, 5, 4, 3, 2, 1, 0}
 
 // Exhaustive: every command sequence of length n over BaseOps from every start.
 func Exhaustive(widget string, n int) []*Scn {
 	var out []*Scn
 	cnt := 0
-	for si, st := range Starts(widget) {
+	starts := Starts(widget)
+	if widget == "textfield" {
+		starts = append(starts, ValueStarts()...)
+	}
+	for si, st := range starts {
 		var rec func(prefix []Op)
 		rec = func(prefix []Op) {
 			if len(prefix) == n {
@@ -555,7 +649,9 @@ func Exhaustive(widget string, n int) []*Scn {
 					sc.Prompt = "> "
 				}
 				sc.Ops = append(append([]Op(nil), st...), prefix...)
-				out = append(out, sc)
+				if !assignedTwice(sc.Ops) {
+					out = append(out, sc)
+				}
 				return
 			}
 			for _, op := range BaseOps(widget, cnt+si) {
@@ -568,8 +664,9 @@ func Exhaustive(widget string, n int) []*Scn {
 }
 
 // Prefixed: from every start, one of the two-stage inputs (a base and a
-// character joining it, typed or pasted; a paste holding a control character),
-// followed by every command sequence of length 0..n over BaseOps.
+// character joining it, typed or pasted; a paste holding a control character;
+// from two of the starts: two graphemes that join once the grapheme between
+// them is deleted), followed by every command sequence of length 0..n over BaseOps.
 func Prefixed(widget string, n int) []*Scn {
 	var pres [][]Op
 	for k := range Joins {
@@ -578,10 +675,21 @@ func Prefixed(widget string, n int) []*Scn {
 	for k := range Ctls {
 		pres = append(pres, []Op{pasteCtlOp(k, k, "a", EAcute)})
 	}
+	var djs [][]Op
+	for k := range DelJoins {
+		for _, how := range delJoinHows(widget, k) {
+			djs = append(djs, delJoinOps(widget, k, how, len(djs)))
+		}
+	}
 	var out []*Scn
 	cnt := 0
 	for si, st := range Starts(widget) {
-		for _, pre := range pres {
+		ps := pres
+		if si == 0 || si == 2 {
+			// a deletion that lets its two neighbours join: in an empty field and in the middle of a text
+			ps = append(append([][]Op(nil), pres...), djs...)
+		}
+		for _, pre := range ps {
 			var rec func(suffix []Op)
 			rec = func(suffix []Op) {
 				cnt++
@@ -590,7 +698,9 @@ func Prefixed(widget string, n int) []*Scn {
 					sc.Prompt = "> "
 				}
 				sc.Ops = append(append(append([]Op(nil), st...), pre...), suffix...)
-				out = append(out, sc)
+				if !assignedTwice(sc.Ops) {
+					out = append(out, sc)
+				}
 				if len(suffix) == n {
 					return
 				}
@@ -643,6 +753,12 @@ func Random(rng *rand.Rand, widget string, n int) *Scn {
 			default:
 				sc.Ops = append(sc.Ops, pasteJoinOps(rng.Intn(len(Joins)), some(2)...)...)
 			}
+		case x < 38:
+			// at the end of the line (no neighbour the typed halves could join)
+			k := rng.Intn(len(DelJoins))
+			hows := delJoinHows(widget, k)
+			sc.Ops = append(sc.Ops, keyOp(widget, "end", rng.Intn(2)))
+			sc.Ops = append(sc.Ops, delJoinOps(widget, k, hows[rng.Intn(len(hows))], rng.Intn(12))...)
 		case x < 85:
 			var ks []string
 			for k := range Bindings[widget] {
@@ -660,7 +776,16 @@ func Random(rng *rand.Rand, widget string, n int) *Scn {
 			sc.Ops = append(sc.Ops, Op{K: "resize", Via: "call", W: []int{0, 1, 2, 3, 4, 5, 6, 8, 10, 14, 20, 40, 80}[rng.Intn(13)]})
 		default:
 			if widget == "textfield" {
-				switch rng.Intn(7) {
+				switch rng.Intn(9) {
+				case 7, 8:
+					gs := some(4)
+					if rng.Intn(4) == 0 {
+						gs = []string{}
+					}
+					sc.Ops = append(sc.Ops, Op{K: "setval", Via: "call", Gs: gs})
+					if assignedTwice(sc.Ops) {
+						sc.Ops[len(sc.Ops)-1] = keyOp(widget, "left", rng.Intn(2))
+					}
 				case 0:
 					sc.Ops = append(sc.Ops, Op{K: "reset", Via: "call"})
 				case 1:
@@ -728,6 +853,33 @@ func Corners() []*Scn {
 		add(wd, 40, "", insOp("b"), insOp("7"), Op{K: "pastectl", Via: "key", Gs: []string{"\x01", "\x0b", "a"}}, k("home"), k("del"))
 		add(wd, 40, "", insOp("b"), insOp("7"), k("left"), Op{K: "pastectl", Via: "key", Gs: []string{"\x05", "a", "\x08", "\x7f"}}, insOp("-"))
 		add(wd, 40, "", insOp("b"), insOp("7"), k("home"), Op{K: "pastectl", Via: "key", Gs: []string{"\x04", "\x06", "a", "\x15"}}, Op{K: "pastectl", Via: "key", Gs: []string{"\x17", "\x02"}}, insOp("-"))
+	}
+	for _, wd := range []string{"textfield", "textinput"} {
+		// a deletion lets its two neighbours join; then motions, typing and deleting around the joined cluster
+		for j := range DelJoins {
+			for alt, how := range delJoinHows(wd, j) {
+				k := func(name string) Op { return keyOp(wd, name, alt) }
+				add(wd, 40, "", append(delJoinOps(wd, j, how, alt), insOp("b"), k("left"), k("left"), k("right"), k("right"), k("right"))...)
+				add(wd, 40, "", append(delJoinOps(wd, j, how, alt+1), k("end"), k("bs"), k("end"), insOp("7"))...)
+				add(wd, 30, "", append(append([]Op{insOp("a"), insOp("-"), k("left")}, delJoinOps(wd, j, how, alt+2)...), k("right"), k("bs"), k("home"), k("right"), k("right"), k("del"))...)
+				add(wd, 40, "", append(delJoinOps(wd, j, how, alt+3), k("home"), k("del"), k("end"), k("left"), insOp("a"))...)
+			}
+		}
+	}
+	// the same text assigned as a whole and reached by a deletion behaves the same
+	add("textinput", 30, "", Op{K: "set", Via: "call", Gs: []string{"🇩", "a", "🇪"}}, keyOp("textinput", "left", 1), Op{K: "bs", Via: "key", Key: "BackSpace", Gs: []string{"🇩", "🇪"}},
+		keyOp("textinput", "end", 1), keyOp("textinput", "bs", 1), keyOp("textinput", "bs", 1))
+	// a TextField whose content is assigned through its exported Value
+	for alt := 0; alt < 2; alt++ {
+		tk := func(name string) Op { return keyOp("textfield", name, alt) }
+		val := func(gs ...string) Op { return Op{K: "setval", Via: "call", Gs: gs} }
+		add("textfield", 40, "", val("h", "e", "l", "l", "o"), tk("end"), tk("right"), tk("home"), tk("del"), tk("killeol"))
+		add("textfield", 40, "", val("a", "世", EAcute), tk("right"), tk("right"), tk("bs"), insOp("b"), tk("end"), tk("bs"))
+		add("textfield", 40, "", val("a", "b", "7"), Op{K: "goto", Via: "call", I: 2}, Op{K: "del", Via: "call"}, val("世", "-", "a", "b"), Op{K: "goto", Via: "call", I: 9}, Op{K: "bs", Via: "call"}, Op{K: "killeol", Via: "call"})
+		add("textfield", 40, "", insOp("a"), insOp("b"), insOp("7"), insOp("-"), val("世"), tk("bs"), tk("bs"), insOp("a"))
+		add("textfield", 40, "", insOp("a"), insOp("b"), insOp("7"), insOp("-"), val("世", "a"), tk("noop"), tk("left"), insOp("b"), val(), tk("left"), tk("del"), insOp("a"))
+		add("textfield", 40, "", insOp("a"), insOp("b"), insOp("7"), tk("left"), tk("left"), val(EAcute, "-", " ", "b", "世"), tk("killeol"), val("a", "b"), tk("end"), tk("enter"), val("7"), tk("right"), tk("bs"))
+		add("textfield", 40, "", insOp("a"), insOp("b"), insOp("7"), val("a"), Op{K: "ins", Via: "call", Gs: []string{"世"}}, val("a", "b"), Op{K: "pastectl", Via: "key", Gs: []string{"7", "\r", "-"}}, tk("left"), tk("left"), tk("left"), tk("left"))
 	}
 	ti := "textinput"
 	k := func(name string, alt int) Op { return keyOp(ti, name, alt) }
